@@ -127,8 +127,17 @@ impl<'a> SendTransactionsProofProcess<'a> {
             // Check extra hash for blocks
             let is_v1 = self.message.count_extra_fields() >= 2;
             let extensions = if is_v1 {
-                let message_v1 =
-                    packed::SendTransactionsProofV1Reader::new_unchecked(self.message.as_slice());
+                // The message was verified in the compatible mode as the legacy one, so the
+                // extra fields are not verified yet.
+                let message_v1 = match packed::SendTransactionsProofV1Reader::from_compatible_slice(
+                    self.message.as_slice(),
+                ) {
+                    Ok(message_v1) => message_v1,
+                    Err(err) => {
+                        let errmsg = format!("the extra fields are malformed: {}", err);
+                        return StatusCode::MalformedProtocolMessage.with_context(errmsg);
+                    }
+                };
                 let uncle_hashes: Vec<_> = message_v1
                     .blocks_uncles_hash()
                     .iter()
